@@ -12,7 +12,7 @@ CHECKS = {
          "Every archive produced from the C01 generator is parsed by a reader written from the specification (header, section bounds/disjointness, 16 KiB root budget, canonical directories, ordering, counters recomputed, clustered flag vs layout, binary-search lookup of every model id and of non-members). A sample is parsed again by an unrelated Python reader. Sampling search.",
          "Trusted: harness/src/spec/reader.rs and tools/pmtiles_ref.py as readings of the specification; flate2/brotli/zstd as decompressors.", "DESIGN.md §4 C02"),
  "C03": ("exploration", "proptest layouts through an independent spec-level writer; expected mapping from the layout description; fixtures",
-         "Foreign archives (24 section orders, gaps, directory depth 1-3, shuffled/padded leaves, runs, shared/non-monotonic/undeduplicated offsets, non-eliding spelling, directories mixing tile entries and leaf pointers, the last tile id of the domain, counters left at 0, empty metadata, 4 codecs with foreign parameters) are opened through from_bytes / from_reader / from_async_reader and compared with what the layout addresses; util::read_directories (sync+async) and Directory::find_entry_for_tile_id are compared with reference answers; the three Go-writer fixtures and hand-assembled archives whose first leaf is steered onto decoder-buffer boundaries are compared with the independent reader. Sampling search with class floors.",
+         "Foreign archives (24 section orders, gaps, directory depth 1-3, shuffled/padded leaves, runs, shared/non-monotonic/undeduplicated offsets, non-eliding spelling, directories mixing tile entries and leaf pointers, the last tile id of the domain, counters left at 0, empty metadata, 4 codecs with foreign parameters) are opened through from_bytes / from_reader / from_async_reader and compared with what the layout addresses; util::read_directories (sync+async) and Directory::find_entry_for_tile_id are compared with reference answers; the three Go-writer fixtures and hand-assembled archives whose first leaf is steered onto decoder-buffer boundaries are compared with the independent reader; every third layout is followed by a sibling archive with an identical header and shifted tile ids. Sampling search with class floors.",
          "Trusted: harness/src/spec/{writer,reader}.rs, cross-checked against each other on every case.", "DESIGN.md §4 C03"),
  "C04": ("exploration", "bounded-exhaustive operation sequences + proptest histories against a map model (model-based testing)",
          "All sequences of 5 (quick) / 6 (thorough) operations over a 14-symbol alphabet of adjacent ids, colliding contents, removes and sync/async reopen, from an empty and from a foreign archive, with a full comparison against the model after every step; plus random histories up to 300 ops over larger alphabets and initial states. Exhaustive within the small scope, sampled beyond.",
@@ -24,16 +24,16 @@ CHECKS = {
          "Both conversions are compared with an independent rotate-and-flip implementation for every tile id of zooms 0-12 (quick) / 0-16 (thorough) together with block contiguity, edge adjacency and the aligned child block; boundary, bit-pattern and uniform points at every zoom 0-31 (each asked again at other zooms back to back), ids beyond the domain, and generated out-of-grid coordinate lookups against archives holding every tile the coordinates could alias to. Exhaustive below the zoom bound, sampled above it.",
          "Trusted: harness/src/spec/hilbert.rs (the specification's algorithm).", "DESIGN.md §4 C07"),
  "C10": ("exploration", "proptest duplication patterns and histories; independent greedy RLE + sum-of-distinct oracle; hook-observed retention invariant after every step",
-         "Engineered duplication patterns on top of empty and undeduplicated foreign archives are written and parsed by the independent reader: tile-data length = sum of distinct content lengths, equal content <=> equal (offset,length), entry list = greedy run-length encoding of the model (hence not mergeable further); runs beyond 2^16 ids, archives with more than 2^16 distinct contents and archives that change threads between adds and the write are part of every tier. Edit histories check after every step that the builder holds exactly one copy per live in-memory content (verif hook). Sampling search with class floors.",
+         "Engineered duplication patterns on top of empty and undeduplicated foreign archives are written and parsed by the independent reader: tile-data length = sum of distinct content lengths, equal content <=> equal (offset,length), entry list = greedy run-length encoding of the model (hence not mergeable further); runs beyond 2^16 ids, archives with more than 2^16 distinct contents and archives that change threads between adds and the write, and one content shared by more than 2^16 ids of which most are removed again, are part of every tier. Edit histories check after every step that the builder holds exactly one copy per live in-memory content (verif hook). Sampling search with class floors.",
          "Trusted: independent RLE in props/c10.rs, spec reader; hook is a read-only accessor.", "DESIGN.md §4 C10"),
  "C11": ("exploration", "proptest archives x steered ranges; metamorphic oracle: full open filtered by an independent contains()",
          "Foreign and library-written archives (root-only, with leaves, depth <= 3) are opened partially through all five range-taking APIs with ranges over all nine bound-kind combinations, endpoints steered onto, next to, a few ids beyond and half-way between 0, leaf first ids, run boundaries and u64::MAX, incl. pin-point ranges of 1-7 ids; the result must equal the full opening restricted to the range, with identical bytes, and never fail or panic when the full open succeeds. Sampling search; every case carries all nine bound kinds.",
          "Trusted: independent contains() and the full open as reference (itself checked by C03).", "DESIGN.md §4 C11"),
  "C16": ("exploration", "proptest pairs of histories to the same state, repeated writes, rewrite, separate OS processes; byte-equality oracle",
-         "For generated logical archives a second history (other permutation, detours, save+reopen in between) must serialise to the same bytes as the straight one, for all four codecs and both writers; the same history twice, a rewrite of a just-read archive, a foreign archive opened and saved against the same content built in memory, unrelated library work between the two histories, large archives with leaf spill, and two freshly spawned processes must agree too. Sampling search.",
+         "For generated logical archives a second history (other permutation, detours, save+reopen in between) must serialise to the same bytes as the straight one, for all four codecs and both writers; the same history twice, a rewrite of a just-read archive, a foreign archive opened and saved against the same content built in memory, unrelated library work (incl. refused writes) between the two histories, a backing stream shared with another user, large archives with leaf spill, and two freshly spawned processes must agree too. Sampling search.",
          "Trusted: byte comparison only.", "DESIGN.md §4 C16"),
  "C19": ("exploration", "proptest placement of the offending element (history position, entry index, JSON kind, codec, API); Err-and-unchanged oracle with controls",
-         "Empty-content adds at generated points of histories on in-memory and reader-backed archives (must be Err; archive then equals the model and writes the same bytes as without them); a zero-length entry (also spelled as an over-long varint or as a multiple of 2^32) at any index of directories up to 10^3 entries x 4 codecs x sync/async serialiser and parser; every non-object JSON kind (incl. long multi-byte strings) as metadata x open API x full / empty / tiny filter ranges; unknown internal compression on open (same APIs and ranges) and on every writer. Sampling search with positive controls so a reject-everything implementation fails.",
+         "Empty-content adds at generated points of histories on in-memory and reader-backed archives (must be Err; archive then equals the model and writes the same bytes as without them); a zero-length entry (also spelled as an over-long varint or as a multiple of 2^32) at any index of directories up to 10^3 entries x 4 codecs x sync/async serialiser and parser; every non-object JSON kind (incl. long multi-byte strings) as metadata x open API x full / empty / tiny filter ranges; unknown internal compression on open (same APIs and ranges, also with empty sections) and on every writer (archives of up to a thousand entries). Sampling search with positive controls so a reject-everything implementation fails.",
          "Trusted: independent encoder for the parser-side bytes; spec writer for crafted archives.", "DESIGN.md §4 C19"),
 }
 
@@ -51,7 +51,7 @@ CHECKS.update({
          "All compositions of small directories (n <= 16), all 2-/3-part header splits, all 5^6 cap sequences and all 2^12 Pending patterns on small archives in all codecs, fixed caps 1..k and random schedules on generated archives: readers must return the same values and writers the same stream image and position as on an unfragmented stream. Exhaustive over the small scopes, sampled on full archives.",
          "Trusted: stream model harness/src/sio (short transfers >= 1 byte, waker woken before Pending, <= 3 consecutive Pending).", "DESIGN.md §4 C13"),
  "C14": ("exploration", "proptest byte strings x codec x chunk schedules; round-trip identity + differential against upstream crates and Python zlib",
-         "compress_all / streaming compress / compress_async paired with decompress_all / streaming decompress / decompress_async under generated write- and read-size schedules, over in-memory streams and over underlying streams that themselves transfer only a few bytes per call and answer 'not ready' now and then, with flushes between writes and zero-length reads, must be the identity for none/gzip/brotli/zstd on inputs from 0 bytes to 8 MiB; outputs must be standard streams for flate2/brotli/zstd (fully consumed) and, for gzip, Python's zlib; Unknown must be Err from all six entry points.",
+         "compress_all / streaming compress / compress_async paired with decompress_all / streaming decompress / decompress_async under generated write- and read-size schedules, over in-memory streams and over underlying streams that themselves transfer only a few bytes per call and answer 'not ready' now and then, with flushes between writes and zero-length reads, must be the identity for none/gzip/brotli/zstd on inputs from 0 bytes to 8 MiB; outputs must be standard streams for flate2/brotli/zstd (fully consumed) and, for gzip, Python's zlib; every case is preceded by a round trip of a sibling payload; Unknown must be Err from all six entry points, also for payloads that are real codec streams.",
          "Trusted: upstream codec crates as decoders; Python zlib for gzip.", "DESIGN.md §4 C14"),
  "C15": ("fault_enumeration", "exhaustive fail-stop fault index enumeration over recorded operation logs, inputs sampled with proptest strategies",
          "For 13 scenarios x 4 compressions x sync/async x sampled archives the fault-free run is recorded and every k < N is executed with operations k.. failing; the call must return Err (never Ok, never panic), with the single carve-out of zero-byte EOF probes. Exhaustive in k for every sampled instance (instances above an operation cap only in the thorough tier). Two further passes: a fixed-size sink of every capacity below the needed size, and generated archives whose source stream ends inside a generated tile (lookups of incomplete tiles and re-writing must be Err, complete tiles exact) or exactly at the start of a directory (opening must be Err).",
